@@ -563,10 +563,38 @@ Definition mon_step (past : list op) (rg : amap (list Z)) (o : op) (prev cur : o
             end) (nodup Z.eq_dec ids)
    else []).
 
+(* the replication settings in force: the last OSetEnv of the past (newest first), else the boot settings *)
+Fixpoint env_of (past : list op) : env :=
+  match past with
+  | [] => Env [] false true
+  | OSetEnv e :: _ => e
+  | _ :: r => env_of r
+  end.
+(* the guards that depend on the replication settings, on the observed trace *)
+Definition mon_env (past : list op) (o : op) (cur : obs) : list string :=
+  let e := env_of past in
+  match o with
+  | OPut g p _ =>
+      (if res_eqb (o_res cur) ROk
+       then match vget (o_served cur) (p_id p) with
+            | Some y => if labels_rejected e (v_labels y) then ["C14:strict-label-mismatch-accepted"] else []
+            | None => []
+            end
+       else []) ++
+      (if g && res_eqb (o_res cur) ROk && negb (e_pr e) && is_tiflash (p_labels p) then ["C14:tiflash-store-accepted-without-placement-rules"] else [])
+  | OLabels id _ _ _ =>
+      if res_eqb (o_res cur) ROk
+      then match vget (o_served cur) id with
+           | Some y => if labels_rejected e (v_labels y) then ["C14:strict-label-mismatch-accepted"] else []
+           | None => []
+           end
+      else []
+  | _ => []
+  end.
 Fixpoint mon_run (past : list op) (rg : amap (list Z)) (ops : list op) (prev : obs) (obs_l : list obs) : list string :=
   match ops, obs_l with
   | o :: r, b :: br =>
-      mon_step past rg o prev b ++
+      mon_step past rg o prev b ++ mon_env past o b ++
       mon_run (o :: past) (match o with ORegion g st => aset rg g st | _ => rg end) r b br
   | _, _ => []
   end.
